@@ -46,6 +46,8 @@ class Aggregate:
             self.counters[k] += v
         for c in res.get("classes") or []:
             self.classes[c] += 1
+        for c, n in (res.get("class_counts") or {}).items():
+            self.classes[c] += n
         for k in res.get("keys") or ([res["key"]] if res.get("key") else []):
             self.keys.add(k)
         if res.get("sample") is not None and len(self.samples) < 6:
